@@ -41,6 +41,20 @@ T = {
          'All call sequences of length <= 3 (quick) / 4 (thorough) over a 64-letter alphabet from 13 fixed streams are enumerated, plus random histories up to 200 calls and the two usual driver loops; the relation encodes only the clauses the property states.', 'Ground truth = reference inflater with zeroed 32 KiB ring semantics. Clauses the property leaves open stay open (documented in DESIGN).', '6/C13'),
  'C14': ('stateful / model-based testing: bounded exhaustive DFS over call sequences (cloning the compressor per node) + random histories with a Finish loop, checked against an executable protocol relation',
          'All call sequences of length <= 3 over a 48-letter alphabet from 36 roots (depth 2 from 3 large roots), random histories and a bounded Finish loop; refused empty-output calls are compared behaviourally with a clone that never saw them; StreamEnd requires a complete valid stream per the reference inflater.', 'Once Finish has been requested only the unconsumed remainder may be re-offered (zlib\'s rule).', '6/C14'),
+ 'C09': ('property-based testing + exhaustive enumeration of all 65536 zlib headers x buffer geometries; definitional Adler-32 oracle; corruption of trailers/bodies under generated schedules',
+         'The complete header space is decoded flat, in rings of 2^0..2^16, through decompress_to_vec_zlib and inflate() and compared with the four RFC 1950 rules plus the ring-window rule; emitted headers/trailers are checked for every generated configuration and schedule; every kind of trailer/body corruption must yield a checksum mismatch unless the caller asked to ignore it.', 'adler32_ref is the definition (two sums mod 65521 after every byte).', '6/C09'),
+ 'C15': ('property-based testing with adversarial data classes, exhaustive over lengths 0..300 x 7 classes x 12 levels x 5 strategies, plus block-size thresholds up to 1 MiB / 8 MiB',
+         'The bound is attacked where expansion is largest: incompressible and near-incompressible data (9-bit literals, sparse short repeats that keep a block open until it has outgrown the window) at every small length and around every block-size threshold; mz_deflate(MZ_FINISH), CompressorOxide and mz_compress2 with a bound-sized destination.', 'Configuration space = mz_deflateInit2(level, 8, 15, 9, strategy).', '6/C15'),
+ 'C16': ('property-based testing: definitional checksums as oracle, arbitrary splits and start values, three builds (scalar release, debug assertions, simd feature); running checksums checked after every call',
+         'mz_adler32_oxide / mz_crc32_oxide / mz_adler32 / mz_crc32 chained over arbitrary pieces vs the definitions on lengths around the SIMD lane sizes, 5552 and 64 KiB with all-0xFF worst cases; CompressorOxide::adler32, DecompressorOxide::adler32 and mz_stream.adler after every call of generated schedules.', 'Definitions are known-answer tested and compared with zlib in the self-check. The simd build is a second binary (target-simd).', '6/C16'),
+ 'C17': ('differential property-based testing (C function vs corresponding Rust call on the same schedule) with guard-page fault injection for out-of-range accesses, enumerated misuse cases, process-level crash attribution',
+         'All exported functions; every buffer handed to C abuts a PROT_NONE page (end- or start-aligned) so any out-of-range access kills the worker, which the orchestrator attributes via the journal and confirms in isolation; accounting identities around every stream call; 27 misuse cases and parameter sweeps must return error codes; release and debug-assertion builds (the latter turns UB-by-precondition into aborts).', 'Null decompressor objects / null size pointers of tinfl_decompress are outside the property\'s list and not asserted.', '6/C17'),
+ 'C18': ('stateful property-based testing: generated history -> reset variant -> workload, compared with a fresh object (differential), plus twice-fresh determinism',
+         'CompressorOxide::reset, InflateState reset policies (Min/Zero/Full/reset), DecompressorOxide::init and mz_deflateReset after histories that abandon streams mid-way, hit errors or change levels; byte-identical output and identical per-call results vs a fresh object.', 'MinReset workloads exclude streams that reference data before their own start (documented contract); excluded cases are counted.', '6/C18'),
+ 'C19': ('property-based testing: snapshot/restore (clone, rmp-serde, serde_json, block-boundary record) injected at generated inter-call points, compared with the uninterrupted run; boundary protocol checked against the reference block trace',
+         'Per-call traces, output and checksum verdict after continuing from a clone / serialise-deserialise copy must equal the uninterrupted run; with stop-at-block-boundary every stop is checked against the reference inflater\'s block ends (count, position, num_bits, bit_buf) and the decoder is rebuilt from the boundary record with everything older than 32 KiB scrubbed.', 'Reference inflater supplies block end positions.', '6/C19'),
+ 'C20': ('exhaustive enumeration of the feature lattice (configurations as generated inputs) with the compiler/linker as oracle; compile-time trait assertions; no-allocator link probe; lexical scan',
+         'This property is about program text, so there is no behaviour to run; what this family can still do is enumerate the finite configuration space completely: 32 feature subsets (x 4 targets in the thorough tier) built with -F unsafe_code, a no_std/no-allocator staticlib probe, Send+Sync+Clone+\'static assertions, and a token scan for cfg arms no available target compiles.', 'rustc\'s unsafe_code lint is the arbiter; wasm32 / rustc-dep-of-std arms are only scanned lexically.', '6/C20'),
 }
 
 checks = []
@@ -48,13 +62,14 @@ for i in ids:
     if i not in T: continue
     tech, text, note, ref = T[i]
     cat = 'exploration'
+    eng = 'c20-config-lattice' if i == 'C20' else 'mzv'
     checks.append({
         'property_id': i,
         'quick_cmd': f'./check {i} quick',
         'thorough_cmd': f'./check {i} thorough',
         'evidence_file': f'/verif/evidence/{i}.json',
         'replay_cmd_template': f'./check {i} --replay {{path}}',
-        'engine': 'mzv',
+        'engine': eng,
         'level_claimed': {'category': cat, 'text': text, 'design_ref': f'DESIGN.md section {ref}'},
         'level_note': note,
         'technique': tech,
@@ -68,7 +83,7 @@ m = {
            'baseline_off_cmd': 'cd /repo && cargo test --workspace --no-fail-fast --offline',
            'source_commits': repo_commits('verif hook'),
            'add_only': True},
- 'engines': [{'name': 'mzv', 'path': '/verif/engine', 'serves_properties': [c['property_id'] for c in checks], 'kind_free_text': 'Rust; proptest TestRunner with fixed seeds in 16 worker processes, own RFC1951 reference inflater + stream grammar as oracles, system zlib as second opinion; orchestrator merges worker reports into evidence'}],
+ 'engines': [{'name': 'c20-config-lattice', 'path': '/verif/c20', 'serves_properties': ['C20'], 'kind_free_text': 'python driver enumerating cargo feature subsets x targets with -F unsafe_code, plus two probe crates and a token scanner'}, {'name': 'mzv', 'path': '/verif/engine', 'serves_properties': [c['property_id'] for c in checks if c['property_id'] != 'C20'], 'kind_free_text': 'Rust; proptest TestRunner with fixed seeds in 16 worker processes, own RFC1951 reference inflater + stream grammar as oracles, system zlib as second opinion; orchestrator merges worker reports into evidence'}],
  'checks': checks,
  'notes': 'Every check rebuilds the engine against /repo\'s working tree (./check runs cargo build first). VERIF_SEED selects the PRNG seed. Exit 0 held / 1 VIOLATION / 2 machinery trouble. Fix commits in /repo: ' + ', '.join(repo_commits('fix:')),
  'not_applicable': na,
